@@ -29,6 +29,7 @@ const (
 )
 
 var workerBin = filepath.Join(buildDir, "simworker")
+var privateBin bool
 
 func goEnv() []string {
 	env := os.Environ()
@@ -38,6 +39,9 @@ func goEnv() []string {
 
 func die2(format string, a ...any) {
 	fmt.Fprintf(os.Stderr, "INFRA: "+format+"\n", a...)
+	if privateBin {
+		os.Remove(fmt.Sprintf("%s.%d", workerBin, os.Getpid()))
+	}
 	os.Exit(2)
 }
 
@@ -47,6 +51,10 @@ func buildWorker(race bool) string {
 		die2("overlay generation failed: %v\n%s", err, out)
 	}
 	bin := workerBin
+	if privateBin {
+		// a check run keeps its own copy: a concurrent build must not swap the binary under a running sweep
+		bin = fmt.Sprintf("%s.%d", workerBin, os.Getpid())
+	}
 	args := []string{"build", "-overlay", filepath.Join(buildDir, "overlay.json"), "-o"}
 	if race {
 		bin += "-race"
@@ -318,7 +326,10 @@ func main() {
 		if t := os.Getenv("VERIF_TIER"); t == "quick" || t == "thorough" {
 			tier = t
 		}
-		os.Exit(cmdCheck(os.Args[2], tier))
+		privateBin = true
+		rc := cmdCheck(os.Args[2], tier)
+		os.Remove(fmt.Sprintf("%s.%d", workerBin, os.Getpid()))
+		os.Exit(rc)
 	default:
 		fmt.Fprintln(os.Stderr, "unknown command")
 		os.Exit(2)
